@@ -38,3 +38,76 @@ PROPS = {
             "level": "bounded symbolic model checking against an independent layout table"},
 }
 NOT_APPLICABLE = {}
+
+
+# ------------------------------------------------------------------ encoder (C07-C10, encoder half of C01)
+def enc_shape(lens, types=None, maxb=64, minb=0, api=None):
+    k = len(lens)
+    types = types or [1] * k
+    d = {"K": k, "MAXB": maxb, "MINB": minb, "API": api if api is not None else (0 if k == 1 else 1)}
+    for i, (l, t) in enumerate(zip(lens, types)):
+        d["L%d" % i] = l
+        d["T%d" % i] = t
+    return d
+
+
+def enc_in_max(d):
+    return sum(d.get("L%d" % i, 0) + 16 for i in range(d["K"])) + 16
+
+
+ENC_SYM = ("all payload bytes, timestamps, interface/vendor ids, common flags, protocol version, "
+           "device id, stream id, sequence-counter start value (all 65536, so the wrap is inside every query)")
+ENC_OUT = "payload-type byte other than 0xFE (it shares a word with the message type; concrete shape parameter), payloads > 136 bytes, more than 3 packets per batch, max frame size > 64 in quick / > 100 in thorough"
+
+ENC_QUICK = [
+    enc_shape([1], maxb=40), enc_shape([16], maxb=40), enc_shape([17], maxb=40), enc_shape([33], maxb=40),
+    enc_shape([16], maxb=40, minb=40), enc_shape([20], maxb=40, minb=30), enc_shape([8], [3], maxb=25 + 8), enc_shape([1], maxb=25),
+    enc_shape([2], maxb=25), enc_shape([8], [0xFF]), enc_shape([8], [2]),
+    enc_shape([8, 8]), enc_shape([8, 8], [1, 3]), enc_shape([8, 41]), enc_shape([41, 8]), enc_shape([8, 33]),
+    enc_shape([8, 8], minb=64), enc_shape([8, 8], api=2),
+    enc_shape([8, 8, 8]), enc_shape([8, 41, 8]), enc_shape([8, 8, 8], [1, 3, 1]), enc_shape([4, 4, 4], [3, 3, 1], maxb=64, minb=20),
+    enc_shape([], api=1), enc_shape([], api=2),
+]
+ENC_THOROUGH = [
+    enc_shape([l], maxb=mb, minb=mn) for mb in (25, 40, 64) for mn in (0, mb) for l in sorted({1, mb - 25, mb - 24, mb - 23, 2 * (mb - 24), 2 * (mb - 24) + 1}) if l >= 1
+] + [
+    enc_shape([a, b], [ta, tb], maxb=64, minb=mn) for mn in (0, 30, 64) for (a, b) in ((8, 8), (8, 40), (8, 41), (40, 8), (41, 8), (41, 41), (8, 9), (33, 8))
+    for (ta, tb) in ((1, 1), (1, 3), (3, 0xFF), (2, 2))
+] + [
+    enc_shape([a, b, c], [ta, tb, tc], maxb=64, api=ap) for ap in (1, 2) for (a, b, c) in ((8, 8, 8), (8, 41, 8), (41, 8, 8), (8, 8, 41), (8, 8, 9), (81, 8, 8), (1, 1, 1))
+    for (ta, tb, tc) in ((1, 1, 1), (1, 3, 1), (3, 3, 1))
+] + [enc_shape([100], maxb=100), enc_shape([8, 8, 100], maxb=100, minb=64), enc_shape([60, 8, 8], maxb=100, minb=64)]
+
+
+def enc_jobs(entries, quick_shapes=None, thorough_shapes=None):
+    jobs = []
+    seen = set()
+    for tier, shapes in (("quick", quick_shapes if quick_shapes is not None else ENC_QUICK), ("thorough", thorough_shapes if thorough_shapes is not None else ENC_THOROUGH)):
+        for d in shapes:
+            key = tuple(sorted(d.items()))
+            if key in seen:
+                continue
+            seen.add(key)
+            for e in entries:
+                if e == "h_enc_reset" and d["K"] == 0:
+                    continue
+                jobs.append(Job("enc.cpp", e, defs=d, unwind=1200, tier=tier, in_max=enc_in_max(d), mem_gb=4,
+                                sym=ENC_SYM, outside=ENC_OUT))
+    return jobs
+
+
+ENC_ASSUME = COMMON_ASSUME + [
+    "batch shape (packet count, payload lengths, message types, min/max frame size, API overload) is enumerated concretely; everything else is symbolic",
+    "expected frames come from an independent protocol model written in the harness (harness/enc.cpp buildModel), not from the library",
+    "the encoder's counter start value is installed through the ASAM_CMP_VERIF friend hook (any 16-bit value)",
+]
+PROPS["C07"] = {"jobs": lambda: enc_jobs(["h_enc_model"]), "assumptions": ENC_ASSUME,
+                "level": "bounded symbolic model checking of Encoder::encode against an independent frame model, all contents symbolic per shape"}
+PROPS["C08"] = {"jobs": lambda: enc_jobs(["h_enc_model"]), "assumptions": ENC_ASSUME,
+                "level": "bounded symbolic model checking of Encoder::encode against an independent segmentation/aggregation model"}
+PROPS["C09"] = {"jobs": lambda: enc_jobs(["h_enc_model", "h_enc_reset"]), "assumptions": ENC_ASSUME + [
+    "history quantifier: one encode call from an arbitrary counter value and arbitrary ids is an inductive step; the lift to all histories is by induction on the number of calls (DESIGN.md section 2)"],
+                "level": "bounded symbolic model checking of one encode/configuration step from an arbitrary counter state (inductive step over histories)"}
+PROPS["C10"] = {"jobs": lambda: enc_jobs(["h_enc_used", "h_enc_model"]), "assumptions": ENC_ASSUME + [
+    "history quantifier by induction: (post) every encode leaves the scratch state cleared - asserted in h_enc_model; (step) from any such post-state with any remembered message type and counter, encode equals the fresh-encoder model - h_enc_used"],
+                "level": "bounded symbolic model checking of the induction step 'encode from any post-state of earlier calls == encode on a fresh encoder'"}
